@@ -16,6 +16,16 @@ pub mod atomic {
         #[verifier::external_body]
         // ASSUMED: the counter starts at 1 and never wraps, so every value it hands out is non-zero
         pub fn fetch_add(&mut self, v: u64, o: Ordering) -> (r: u64) ensures r != 0 { unimplemented!() }
+        #[verifier::external_body]
+        pub fn fetch_max(&mut self, v: u64, o: Ordering) -> (r: u64) { unimplemented!() }
+        #[verifier::external_body]
+        pub fn fetch_min(&mut self, v: u64, o: Ordering) -> (r: u64) { unimplemented!() }
+        #[verifier::external_body]
+        pub fn store(&mut self, v: u64, o: Ordering) { unimplemented!() }
+        #[verifier::external_body]
+        pub fn swap(&mut self, v: u64, o: Ordering) -> (r: u64) { unimplemented!() }
+        #[verifier::external_body]
+        pub fn load(&self, o: Ordering) -> (r: u64) { unimplemented!() }
     }
 }
 pub use atomic::{AtomicU64, Ordering};
